@@ -954,4 +954,1175 @@ theorem runDb_sim (ops : List DOp) (v : ValidFrom {} ops) :
     Sim (runDb ops) (run (plainOps ops)) ∧ FloorOk (runDb ops) ∧ FreshFrom {} (plainOps ops) :=
   sim_foldl ops {} {} sim_empty (Or.inl rfl) v
 
+/-! ## Part 3: what a pruned node answers -/
+
+/-- `db` is a pruning node's database after a valid history, `nd` the never-pruned twin. -/
+structure Pruned (db : Db) (nd : Node) : Prop where
+  s : Sim db nd
+  inv : Inv nd
+  wf : WellFormed nd
+  fo : FloorOk db
+
+/-- A valid history of a pruning node ends in such a pair. -/
+theorem runDb_pruned (ops : List DOp) (v : ValidFrom {} ops) : Pruned (runDb ops) (run (plainOps ops)) := by
+  obtain ⟨s, f, fr⟩ := runDb_sim ops v
+  exact ⟨s, run_inv _ fr, run_wellFormed _, f⟩
+
+theorem find?_filter_key {β : Type} (g : List Nat) (x : Nat) : ∀ (l : List (Nat × β)),
+    (l.filter (fun e => !g.contains e.1)).find? (fun e => e.1 == x) =
+      if g.contains x then none else l.find? (fun e => e.1 == x) := by
+  intro l
+  induction l with
+  | nil => simp
+  | cons a l ih =>
+    by_cases hx : (a.1 == x) = true
+    · have hax : a.1 = x := by simpa using hx
+      by_cases hg : g.contains x = true
+      · have : g.contains a.1 = true := by rw [hax]; exact hg
+        simp only [List.filter_cons, this, Bool.not_true, Bool.false_eq_true, if_false, ih, hg, if_true]
+      · have hg' : g.contains x = false := by simpa using hg
+        have : g.contains a.1 = false := by rw [hax]; exact hg'
+        simp only [List.filter_cons, this, Bool.not_false, if_true, List.find?_cons, hx, hg', Bool.false_eq_true, if_false]
+    · have hx' : (a.1 == x) = false := by simpa using hx
+      by_cases hga : g.contains a.1 = true
+      · simp only [List.filter_cons, hga, Bool.not_true, Bool.false_eq_true, if_false, ih, List.find?_cons, hx']
+      · have hga' : g.contains a.1 = false := by simpa using hga
+        simp only [List.filter_cons, hga', Bool.not_false, if_true, List.find?_cons, hx', ih]
+
+section pruned
+variable {db : Db} {nd : Node} (p : Pruned db nd)
+include p
+
+theorem pr_numberByHash_eq (x : Nat) :
+    db.numberByHash x = if db.goneHashes.contains x then none else numberByHash nd x := by
+  simp only [Db.numberByHash, numberByHash, p.s.nbh, find?_filter_key]
+  split <;> rfl
+
+theorem pr_txLoc_eq (x : Nat) :
+    db.txLoc x = if db.goneTxHashes.contains x then none else numberAndIndexByTxHash nd x := by
+  simp only [Db.txLoc, numberAndIndexByTxHash, p.s.txl, find?_filter_key]
+  split <;> rfl
+
+theorem pr_gone_iff {n : Nat} {b : Block} (hb : nd.chain[n]? = some b) :
+    b.hash ∈ db.goneHashes ↔ n + 1 < db.prunedBelow := by
+  simp only [Db.goneHashes, p.s.chain, List.mem_map]
+  constructor
+  · rintro ⟨c, hc, hh⟩
+    obtain ⟨m, hm⟩ := List.getElem?_of_mem hc
+    have hml : m < db.prunedBelow - 1 := by
+      rcases Nat.lt_or_ge m (db.prunedBelow - 1) with h | h
+      · exact h
+      · exfalso
+        have : (List.take (db.prunedBelow - 1) nd.chain).length ≤ m := by
+          rw [List.length_take]; omega
+        rw [List.getElem?_eq_none_iff.mpr this] at hm
+        cases hm
+    have hm' : nd.chain[m]? = some c := by
+      rw [List.getElem?_take] at hm
+      simpa [hml] using hm
+    have e1 : (nd.chain.map (·.hash))[m]? = some b.hash := by simp [hm', hh]
+    have e2 : (nd.chain.map (·.hash))[n]? = some b.hash := by simp [hb]
+    have := nodup_getElem?_inj _ m n b.hash p.inv.2.1 e1 e2
+    omega
+  · intro h
+    refine ⟨b, ?_, rfl⟩
+    apply List.mem_of_getElem? (i := n)
+    rw [List.getElem?_take]
+    have : n < db.prunedBelow - 1 := by omega
+    simp [this, hb]
+
+theorem pr_chain : db.nd.chain = nd.chain := p.s.chain
+
+theorem pr_head_retained : db.prunedBelow = 0 ∨ db.prunedBelow < nd.chain.length := p.s.head
+
+theorem pr_height : db.height = height nd := by
+  simp only [Db.height, height, p.s.chain]
+
+theorem pr_height_retained {h : Nat} (hh : height nd = some h) : db.prunedBelow ≤ h := by
+  simp only [height] at hh
+  split at hh
+  · cases hh
+  · cases hh
+    rcases p.s.head with h0 | h1 <;> omega
+
+theorem pr_header_r {n : Nat} (h : db.prunedBelow ≤ n) : db.header n = blockByNumber nd n := by
+  have : db.prunedBelow ≤ n + blockHashLag := by omega
+  simp [Db.header, Db.headerKept, this, blockByNumber, p.s.chain]
+
+theorem pr_body_r {n : Nat} (h : db.prunedBelow ≤ n) : db.body n = txsByNumber nd n := by
+  simp [Db.body, Db.bodyKept, h, txsByNumber, blockByNumber, p.s.chain]
+
+theorem pr_update_r {n : Nat} (h : db.prunedBelow ≤ n) : db.update n = stateUpdateByNumber nd n := by
+  simp [Db.update, Db.bodyKept, h, stateUpdateByNumber, blockByNumber, p.s.chain]
+
+theorem pr_hasCommit_r {n : Nat} (h : db.prunedBelow ≤ n) (hl : n < nd.chain.length) : db.hasCommit n = true := by
+  simp [Db.hasCommit, Db.bodyKept, h, Db.len, p.s.chain, hl, p.s.nc]
+
+theorem pr_blockByNumber_r {n : Nat} (h : db.prunedBelow ≤ n) : db.blockByNumber n = blockByNumber nd n := by
+  simp only [Db.blockByNumber, pr_header_r p h, pr_body_r p h, txsByNumber, blockByNumber]
+  cases nd.chain[n]? <;> simp
+
+theorem pr_txCount_r {n : Nat} (h : db.prunedBelow ≤ n) : db.txCountByNumber n = txCountByNumber nd n := by
+  simp [Db.txCountByNumber, pr_header_r p h, txCountByNumber]
+
+theorem pr_txHashes_r {n : Nat} (h : db.prunedBelow ≤ n) : db.txHashesByNumber n = txHashesByNumber nd n := by
+  simp only [Db.txHashesByNumber, pr_body_r p h, txHashesByNumber, txsByNumber]
+  cases blockByNumber nd n <;> rfl
+
+theorem pr_txs_r {n : Nat} (h : db.prunedBelow ≤ n) : db.txsByNumber n = txsByNumber nd n := by
+  simp [Db.txsByNumber, pr_body_r p h]
+
+theorem pr_txAt_r {n : Nat} (h : db.prunedBelow ≤ n) (i : Nat) : db.txByNumberAndIndex n i = txByNumberAndIndex nd n i := by
+  simp only [Db.txByNumberAndIndex, pr_body_r p h, txsByNumber, txByNumberAndIndex]
+  cases blockByNumber nd n <;> rfl
+
+theorem pr_txAndBlockHash_r {n : Nat} (h : db.prunedBelow ≤ n) (i : Nat) : db.txAndBlockHash n i = txAndBlockHash nd n i := by
+  simp only [Db.txAndBlockHash, pr_txAt_r p h, pr_header_r p h, txByNumberAndIndex, txAndBlockHash]
+  cases blockByNumber nd n with
+  | none => rfl
+  | some b => cases h : b.txs[i]? <;> simp [h]
+
+theorem pr_headsHeader : db.headsHeader = headBlock nd := by
+  simp only [Db.headsHeader, pr_height p, headBlock]
+  cases hh : height nd with
+  | none => rfl
+  | some h => simp [pr_header_r p (pr_height_retained p hh)]
+
+theorem pr_head : db.head = headBlock nd := by
+  simp only [Db.head, pr_height p, headBlock]
+  cases hh : height nd with
+  | none => rfl
+  | some h => simp [pr_blockByNumber_r p (pr_height_retained p hh)]
+
+omit p in
+/-- Below the floor the number-keyed records are gone (the header: only below the ten-block
+window). -/
+theorem pr_body_p {n : Nat} (h : n < db.prunedBelow) :
+    db.body n = none ∧ db.update n = none ∧ db.hasCommit n = false ∧ db.blockByNumber n = none ∧
+      db.txHashesByNumber n = none ∧ db.txsByNumber n = none ∧ (∀ i, db.txByNumberAndIndex n i = none) := by
+  have hb : db.bodyKept n = false := by simp [Db.bodyKept]; omega
+  have h1 : db.body n = none := by simp [Db.body, hb]
+  refine ⟨h1, by simp [Db.update, hb], by simp [Db.hasCommit, hb], ?_, by simp [Db.txHashesByNumber, h1],
+    by simp [Db.txsByNumber, h1], fun i => by simp [Db.txByNumberAndIndex, h1]⟩
+  simp only [Db.blockByNumber, h1]
+  cases db.header n <;> rfl
+
+theorem numberByHash_of_block {n : Nat} {b : Block} (hb : nd.chain[n]? = some b) : numberByHash nd b.hash = some n := by
+  rw [p.inv.1.1]
+  cases hf : nd.chain.findIdx? (fun c => c.hash == b.hash) with
+  | none =>
+    rw [List.findIdx?_eq_none_iff] at hf
+    have := hf b (List.mem_of_getElem? hb)
+    simp at this
+  | some m =>
+    obtain ⟨hl, hp, _⟩ := List.findIdx?_eq_some_iff_getElem.mp hf
+    have e1 : (nd.chain.map (·.hash))[m]? = some b.hash := by
+      have : nd.chain[m].hash = b.hash := by simpa using hp
+      simp [hl, this]
+    have e2 : (nd.chain.map (·.hash))[n]? = some b.hash := by simp [hb]
+    rw [nodup_getElem?_inj _ m n b.hash p.inv.2.1 e1 e2]
+
+/-- The hash index of a pruned node: the entry of block `n` is there iff `n ≥ prunedBelow - 1`. -/
+theorem pr_numberByHash_block {n : Nat} {b : Block} (hb : nd.chain[n]? = some b) :
+    db.numberByHash b.hash = if n + 1 < db.prunedBelow then none else some n := by
+  rw [pr_numberByHash_eq p, List.contains_eq_mem, numberByHash_of_block p hb]
+  by_cases h : n + 1 < db.prunedBelow
+  · simp [(pr_gone_iff p hb).mpr h, h]
+  · have : ¬ b.hash ∈ db.goneHashes := fun hm => h ((pr_gone_iff p hb).mp hm)
+    simp [this, h]
+
+/-- A hash that is on nobody's chain has no entry. -/
+theorem pr_numberByHash_none {x : Nat} (h : numberByHash nd x = none) : db.numberByHash x = none := by
+  rw [pr_numberByHash_eq p, h]; split <;> rfl
+
+/-- An identifier by hash that does not point below the floor is looked up as on the twin. -/
+theorem pr_numberByHash_r {x : Nat} (hx : ∀ n, numberByHash nd x = some n → db.prunedBelow ≤ n + 1) :
+    db.numberByHash x = numberByHash nd x := by
+  cases hq : numberByHash nd x with
+  | none => exact pr_numberByHash_none p hq
+  | some n =>
+    obtain ⟨_, b, hb, hh⟩ := numberByHash_lt p.inv.1 hq
+    subst hh
+    rw [pr_numberByHash_block p hb]
+    have := hx n hq
+    have hn : ¬ n + 1 < db.prunedBelow := by omega
+    simp [hn]
+
+theorem pr_goneTx_iff {n : Nat} {b : Block} {t : Tx} (hb : nd.chain[n]? = some b) (ht : t ∈ b.txs) :
+    t.hash ∈ db.goneTxHashes ↔ n < db.prunedBelow := by
+  simp only [Db.goneTxHashes, p.s.chain, List.mem_flatMap, List.mem_map]
+  constructor
+  · rintro ⟨c, hc, u, hu, hh⟩
+    obtain ⟨m, hm⟩ := List.getElem?_of_mem hc
+    have hml : m < db.prunedBelow := by
+      rcases Nat.lt_or_ge m db.prunedBelow with h | h
+      · exact h
+      · exfalso
+        have : (List.take db.prunedBelow nd.chain).length ≤ m := by
+          rw [List.length_take]; omega
+        rw [List.getElem?_eq_none_iff.mpr this] at hm
+        cases hm
+    have hm' : nd.chain[m]? = some c := by
+      rw [List.getElem?_take] at hm
+      simpa [hml] using hm
+    have hnd : (nd.chain.flatMap (fun b : Block => b.txs.map (fun t : Tx => t.hash))).Nodup := p.inv.2.2
+    have := nodup_flatMap_index (fun b : Block => b.txs.map (fun t : Tx => t.hash)) nd.chain hnd m n c b t.hash hm' hb
+      (List.mem_map.mpr ⟨u, hu, hh⟩) (List.mem_map.mpr ⟨t, ht, rfl⟩)
+    omega
+  · intro h
+    refine ⟨b, ?_, t, ht, rfl⟩
+    apply List.mem_of_getElem? (i := n)
+    rw [List.getElem?_take]
+    simp [h, hb]
+
+/-- The transaction-hash index of a pruned node: the entries of block `n` are there iff
+`n ≥ prunedBelow`. -/
+theorem pr_txLoc_tx {n i : Nat} {b : Block} {t : Tx} (hb : nd.chain[n]? = some b) (ht : b.txs[i]? = some t) :
+    db.txLoc t.hash = if n < db.prunedBelow then none else some (n, i) := by
+  rw [pr_txLoc_eq p, List.contains_eq_mem, findTx_complete p.inv.1 p.wf p.inv.2.2 hb ht]
+  have htm : t ∈ b.txs := List.mem_of_getElem? ht
+  by_cases h : n < db.prunedBelow
+  · simp [(pr_goneTx_iff p hb htm).mpr h, h]
+  · have : ¬ t.hash ∈ db.goneTxHashes := fun hm => h ((pr_goneTx_iff p hb htm).mp hm)
+    simp [this, h]
+
+theorem pr_txLoc_none {x : Nat} (h : numberAndIndexByTxHash nd x = none) : db.txLoc x = none := by
+  rw [pr_txLoc_eq p, h]; split <;> rfl
+
+/-- The index entry of any transaction hash: that of the twin unless it points below the floor. -/
+theorem pr_txLoc (x : Nat) :
+    db.txLoc x = match numberAndIndexByTxHash nd x with
+      | none => none
+      | some (n, i) => if n < db.prunedBelow then none else some (n, i) := by
+  cases hq : numberAndIndexByTxHash nd x with
+  | none => exact pr_txLoc_none p hq
+  | some q =>
+    obtain ⟨n, i⟩ := q
+    obtain ⟨b, t, hb, ht, hh⟩ := txLookup p.inv.1 p.wf hq
+    subst hh
+    exact pr_txLoc_tx p hb ht
+
+
+theorem pr_headState (be : Backend) : db.headState be = headState nd := by
+  cases be with
+  | legacy => simp only [Db.headState, headState, p.s.chain]
+  | new =>
+    simp only [Db.headState, headState, pr_height p, p.s.chain]
+    cases hh : height nd with
+    | none =>
+      have : nd.chain.isEmpty = true := by
+        simp only [height] at hh
+        split at hh
+        · assumption
+        · cases hh
+      simp [this]
+    | some h =>
+      have hne : nd.chain.isEmpty = false := by
+        simp only [height] at hh
+        split at hh
+        · cases hh
+        · simpa using ‹¬ nd.chain.isEmpty = true›
+      have hl : h < nd.chain.length := by
+        simp only [height, hne] at hh
+        cases hh
+        have := length_pos_of_not_isEmpty (l := nd.chain) (by simp [hne])
+        omega
+      simp [pr_header_r p (pr_height_retained p hh), blockByNumber, hl, hne]
+
+theorem pr_stateAtNumber_r {n : Nat} (h : db.prunedBelow ≤ n + 1) (be : Backend) :
+    db.stateAtBlockNumber be n = stateAtBlockNumber nd n := by
+  have hk : db.prunedBelow ≤ n + blockHashLag := by simp only [blockHashLag]; omega
+  have hhdr : db.header n = nd.chain[n]? := by simp [Db.header, Db.headerKept, hk, p.s.chain]
+  simp only [Db.stateAtBlockNumber, stateAtBlockNumber, stateAtNumber, Db.histAt, p.s.chain]
+  rcases p.fo with hf | hf
+  · rw [hf]
+    simp only [hhdr]
+    by_cases hn : n < nd.chain.length
+    · have hb : nd.chain[n]? = some nd.chain[n] := by simp [hn]
+      have hq := pr_numberByHash_block p hb
+      have hnl : ¬ n + 1 < db.prunedBelow := by omega
+      simp [hq, hnl, hn]
+    · simp [hn]
+  · rw [hf]
+    have hnf : ¬ n < db.prunedBelow - 1 := by omega
+    simp only [hnf, if_false]
+    cases be with
+    | legacy =>
+      simp only [pr_height p, height]
+      by_cases he : nd.chain.isEmpty
+      · have : nd.chain.length = 0 := by simpa using he
+        simp [he, this]
+      · have hl := length_pos_of_not_isEmpty he
+        by_cases hn : n < nd.chain.length
+        · have : ¬ (nd.chain.length - 1 < n) := by omega
+          simp [he, hn, this]
+        · have : nd.chain.length - 1 < n := by omega
+          simp [he, hn, this]
+    | new =>
+      simp only [hhdr]
+      by_cases hn : n < nd.chain.length <;> simp [hn]
+
+/-- Historical state below `prunedBelow - 1` is refused by both backends, whether the retention
+floor is seeded or not. -/
+theorem pr_stateAtNumber_p {n : Nat} (h : n + 1 < db.prunedBelow) (be : Backend) :
+    db.stateAtBlockNumber be n = .error .blockNotFound := by
+  simp only [Db.stateAtBlockNumber]
+  rcases p.fo with hf | hf
+  · rw [hf]
+    simp only [Db.header]
+    by_cases hk : db.headerKept n = true
+    · simp only [hk, if_true, p.s.chain]
+      cases hb : nd.chain[n]? with
+      | none => rfl
+      | some b => simp [pr_numberByHash_block p hb, h]
+    · simp [hk]
+  · rw [hf]
+    have : n < db.prunedBelow - 1 := by omega
+    simp [this]
+
+theorem pr_stateAtHash_r {x : Nat} (hx : ∀ n, numberByHash nd x = some n → db.prunedBelow ≤ n + 1) (be : Backend) :
+    db.stateAtBlockHash be x = stateAtBlockHash be nd x := by
+  simp only [Db.stateAtBlockHash, stateAtBlockHash, pr_numberByHash_r p hx, stateAtNumber, Db.histAt, p.s.chain]
+  by_cases h0 : (x == 0) = true
+  · simp only [h0, if_true]
+    cases be <;> rfl
+  · simp only [h0, Bool.false_eq_true, if_false]
+    cases hq : numberByHash nd x with
+    | none => rfl
+    | some n =>
+      have hl := (numberByHash_lt p.inv.1 hq).1
+      have hk : db.prunedBelow ≤ n + blockHashLag := by have := hx n hq; simp only [blockHashLag]; omega
+      cases be with
+      | legacy => simp [hl]
+      | new => simp [Db.header, Db.headerKept, hk, p.s.chain, hl]
+
+/-- A hash whose block lies below `prunedBelow - 1` has lost its index entry: no state by that hash. -/
+theorem pr_stateAtHash_p {n : Nat} {b : Block} (hb : nd.chain[n]? = some b) (h : n + 1 < db.prunedBelow) (h0 : b.hash ≠ 0)
+    (be : Backend) : db.stateAtBlockHash be b.hash = .error .blockNotFound := by
+  have : (b.hash == 0) = false := by simpa using h0
+  simp [Db.stateAtBlockHash, this, pr_numberByHash_block p hb, h]
+
+end pruned
+
+/-- An identifier that does not point at a pruned block: a number at or above the floor, a hash of
+no block or of a block at or above the floor, `latest`, `l1_accepted` when the L1 head is at or above
+the floor (the pruner never prunes above it), the tag of the block under construction. -/
+def RetainedId (db : Db) (nd : Node) : BlockId → Prop
+  | .number n => db.prunedBelow ≤ n
+  | .hash x => ∀ n, numberByHash nd x = some n → db.prunedBelow ≤ n
+  | .l1Accepted => ∀ n, l1AcceptedNumber nd = some n → db.prunedBelow ≤ n
+  | .latest => True
+  | .pre => True
+
+theorem l1A_9 (nd : Node) : l1AcceptedNumber nd = V9.l1AcceptedBlockNumber nd := (l1Accepted_eq nd).1.symm
+theorem l1A_10 (nd : Node) : l1AcceptedNumber nd = V10.l1AcceptedBlockNumber nd := (l1Accepted_eq nd).2.symm
+
+
+/-- The weaker condition for the state methods: state is served from one block below the floor. -/
+def RetainedStateId (db : Db) (nd : Node) : BlockId → Prop
+  | .number n => db.prunedBelow ≤ n + 1
+  | .hash x => ∀ n, numberByHash nd x = some n → db.prunedBelow ≤ n + 1
+  | .l1Accepted => ∀ n, l1AcceptedNumber nd = some n → db.prunedBelow ≤ n + 1
+  | .latest => True
+  | .pre => True
+
+theorem RetainedId.state {db : Db} {nd : Node} {id : BlockId} (r : RetainedId db nd id) : RetainedStateId db nd id := by
+  cases id with
+  | number n => exact Nat.le_succ_of_le r
+  | hash x => exact fun n hn => Nat.le_succ_of_le (r n hn)
+  | l1Accepted => exact fun n hn => Nat.le_succ_of_le (r n hn)
+  | latest => trivial
+  | pre => trivial
+
+/-- A transaction hash that does not point into a pruned block. -/
+def RetainedTx (db : Db) (nd : Node) (x : Nat) : Prop :=
+  ∀ n i, numberAndIndexByTxHash nd x = some (n, i) → db.prunedBelow ≤ n
+
+theorem v10_header_eq_block (nd : Node) (id : BlockId) : V10.blockHeaderByID nd id = V10.blockByID nd id := by
+  cases id <;> rfl
+theorem v9_header_eq_block (nd : Node) (id : BlockId) : V9.blockHeaderByID nd id = V9.blockByID nd id := by
+  cases id <;> rfl
+
+section pruned2
+variable {db : Db} {nd : Node} (p : Pruned db nd)
+include p
+
+/-! ### retained identifiers: the pruned node answers as its never-pruned twin (rpc/v10) -/
+
+theorem d10_l1_r : D10.l1AcceptedBlockNumber db = V10.l1AcceptedBlockNumber nd := by
+  simp only [D10.l1AcceptedBlockNumber, V10.l1AcceptedBlockNumber, pr_height p, p.s.l1] <;> (first | done | mrfl)
+
+theorem d10_blockStatus_r (n : Nat) : D10.blockStatus db n = V10.blockStatus nd n := by
+  simp only [D10.blockStatus, V10.blockStatus, statusL1, p.s.l1, p.s.l1z] <;> (first | done | mrfl)
+
+theorem d10_header_r (b : Block) : D10.header db b = V10.header nd b := by
+  simp only [D10.header, V10.header, V10.blockStatus, statusL1, p.s.l1, p.s.l1z] <;> (first | done | mrfl)
+
+theorem d10_blockHeaderByID_r {id : BlockId} (r : RetainedId db nd id) : D10.blockHeaderByID db id = V10.blockHeaderByID nd id := by
+  cases id with
+  | pre => rfl
+  | latest => simp only [D10.blockHeaderByID, V10.blockHeaderByID, pr_headsHeader p] <;> (first | done | mrfl)
+  | number n => simp only [D10.blockHeaderByID, V10.blockHeaderByID, pr_header_r p (show db.prunedBelow ≤ n from r)] <;> (first | done | mrfl)
+  | hash x =>
+    simp only [D10.blockHeaderByID, V10.blockHeaderByID, Db.headerByHash, blockByHash,
+      pr_numberByHash_r p (fun n hn => Nat.le_succ_of_le (r n hn))]
+    cases hq : numberByHash nd x with
+    | none => rfl
+    | some n => simp [pr_header_r p (r n hq)] <;> (first | done | mrfl)
+  | l1Accepted =>
+    simp only [D10.blockHeaderByID, V10.blockHeaderByID, d10_l1_r p]
+    cases hq : V10.l1AcceptedBlockNumber nd with
+    | none => rfl
+    | some n => simp only [pr_header_r p (r n (by rw [l1A_10 nd]; exact hq))] <;> (first | done | mrfl)
+
+theorem d10_blockByID_r {id : BlockId} (r : RetainedId db nd id) : D10.blockByID db id = V10.blockByID nd id := by
+  cases id with
+  | pre => rfl
+  | latest => simp only [D10.blockByID, V10.blockByID, pr_head p] <;> (first | done | mrfl)
+  | number n => simp only [D10.blockByID, V10.blockByID, pr_blockByNumber_r p (show db.prunedBelow ≤ n from r)] <;> (first | done | mrfl)
+  | hash x =>
+    simp only [D10.blockByID, V10.blockByID, Db.blockByHash, blockByHash,
+      pr_numberByHash_r p (fun n hn => Nat.le_succ_of_le (r n hn))]
+    cases hq : numberByHash nd x with
+    | none => rfl
+    | some n => simp [pr_blockByNumber_r p (r n hq)] <;> (first | done | mrfl)
+  | l1Accepted =>
+    simp only [D10.blockByID, V10.blockByID, d10_l1_r p]
+    cases hq : V10.l1AcceptedBlockNumber nd with
+    | none => rfl
+    | some n => simp only [pr_blockByNumber_r p (r n (by rw [l1A_10 nd]; exact hq))] <;> (first | done | mrfl)
+
+/-! ### retained identifiers: the pruned node answers as its never-pruned twin (rpc/v9) -/
+
+theorem d9_l1_r : D9.l1AcceptedBlockNumber db = V9.l1AcceptedBlockNumber nd := by
+  simp only [D9.l1AcceptedBlockNumber, V9.l1AcceptedBlockNumber, pr_height p, p.s.l1] <;> (first | done | mrfl)
+
+theorem d9_blockStatus_r (n : Nat) : D9.blockStatus db n = V9.blockStatus nd n := by
+  simp only [D9.blockStatus, V9.blockStatus, statusL1, p.s.l1, p.s.l1z] <;> (first | done | mrfl)
+
+theorem d9_header_r (b : Block) : D9.header db b = V9.header nd b := by
+  simp only [D9.header, V9.header, V9.blockStatus, statusL1, p.s.l1, p.s.l1z] <;> (first | done | mrfl)
+
+theorem d9_blockHeaderByID_r {id : BlockId} (r : RetainedId db nd id) : D9.blockHeaderByID db id = V9.blockHeaderByID nd id := by
+  cases id with
+  | pre => rfl
+  | latest => simp only [D9.blockHeaderByID, V9.blockHeaderByID, pr_headsHeader p] <;> (first | done | mrfl)
+  | number n => simp only [D9.blockHeaderByID, V9.blockHeaderByID, pr_header_r p (show db.prunedBelow ≤ n from r)] <;> (first | done | mrfl)
+  | hash x =>
+    simp only [D9.blockHeaderByID, V9.blockHeaderByID, Db.headerByHash, blockByHash,
+      pr_numberByHash_r p (fun n hn => Nat.le_succ_of_le (r n hn))]
+    cases hq : numberByHash nd x with
+    | none => rfl
+    | some n => simp [pr_header_r p (r n hq)] <;> (first | done | mrfl)
+  | l1Accepted =>
+    simp only [D9.blockHeaderByID, V9.blockHeaderByID, d9_l1_r p]
+    cases hq : V9.l1AcceptedBlockNumber nd with
+    | none => rfl
+    | some n => simp only [pr_header_r p (r n (by rw [l1A_9 nd]; exact hq))] <;> (first | done | mrfl)
+
+theorem d9_blockByID_r {id : BlockId} (r : RetainedId db nd id) : D9.blockByID db id = V9.blockByID nd id := by
+  cases id with
+  | pre => rfl
+  | latest => simp only [D9.blockByID, V9.blockByID, pr_head p] <;> (first | done | mrfl)
+  | number n => simp only [D9.blockByID, V9.blockByID, pr_blockByNumber_r p (show db.prunedBelow ≤ n from r)] <;> (first | done | mrfl)
+  | hash x =>
+    simp only [D9.blockByID, V9.blockByID, Db.blockByHash, blockByHash,
+      pr_numberByHash_r p (fun n hn => Nat.le_succ_of_le (r n hn))]
+    cases hq : numberByHash nd x with
+    | none => rfl
+    | some n => simp [pr_blockByNumber_r p (r n hq)] <;> (first | done | mrfl)
+  | l1Accepted =>
+    simp only [D9.blockByID, V9.blockByID, d9_l1_r p]
+    cases hq : V9.l1AcceptedBlockNumber nd with
+    | none => rfl
+    | some n => simp only [pr_blockByNumber_r p (r n (by rw [l1A_9 nd]; exact hq))] <;> (first | done | mrfl)
+
+theorem v10_retained_number {id : BlockId} {hd : Block} (r : RetainedId db nd id) (hh : V10.blockByID nd id = .ok hd) :
+    db.prunedBelow ≤ hd.number ∧ hd.number < nd.chain.length := by
+  have key : ∀ n, nd.chain[n]? = some hd → db.prunedBelow ≤ n → db.prunedBelow ≤ hd.number ∧ hd.number < nd.chain.length := by
+    intro n hn hE
+    have e := p.wf n hd hn
+    have hl := number_lt_of_getElem? p.wf hn
+    omega
+  cases id with
+  | pre => simp [V10.blockByID] at hh
+  | latest =>
+    simp only [V10.blockByID, headBlock] at hh
+    cases hq : height nd with
+    | none => simp [hq] at hh
+    | some h =>
+      simp only [hq, Option.bind_some, blockByNumber] at hh
+      cases hb : nd.chain[h]? with
+      | none => simp [hb] at hh
+      | some c => simp [hb] at hh; subst hh; exact key h hb (pr_height_retained p hq)
+  | number n =>
+    simp only [V10.blockByID, blockByNumber] at hh
+    cases hb : nd.chain[n]? with
+    | none => simp [hb] at hh
+    | some c => simp [hb] at hh; subst hh; exact key n hb r
+  | hash x =>
+    simp only [V10.blockByID, blockByHash] at hh
+    cases hq : numberByHash nd x with
+    | none => simp [hq] at hh
+    | some n =>
+      simp only [hq, Option.bind_some, blockByNumber] at hh
+      cases hb : nd.chain[n]? with
+      | none => simp [hb] at hh
+      | some c => simp [hb] at hh; subst hh; exact key n hb (r n hq)
+  | l1Accepted =>
+    simp only [V10.blockByID] at hh
+    cases hq : V10.l1AcceptedBlockNumber nd with
+    | none => simp [hq] at hh
+    | some n =>
+      simp only [hq, blockByNumber] at hh
+      cases hb : nd.chain[n]? with
+      | none => simp [hb] at hh
+      | some c => simp [hb] at hh; subst hh; exact key n hb (r n (by rw [l1A_10 nd]; exact hq))
+
+theorem d10_blockTransactionCount_r {id : BlockId} (r : RetainedId db nd id) :
+    D10.blockTransactionCount db id = V10.blockTransactionCount nd id := by
+  cases id with
+  | pre => rfl
+  | latest =>
+    simp only [D10.blockTransactionCount, V10.blockTransactionCount, pr_height p]
+    cases hq : height nd with
+    | none => rfl
+    | some h => simp only [pr_txCount_r p (pr_height_retained p hq)] <;> (first | done | mrfl)
+  | number n => simp only [D10.blockTransactionCount, V10.blockTransactionCount, pr_txCount_r p (show db.prunedBelow ≤ n from r)] <;> (first | done | mrfl)
+  | hash x =>
+    simp only [D10.blockTransactionCount, V10.blockTransactionCount, pr_numberByHash_r p (fun n hn => Nat.le_succ_of_le (r n hn))]
+    cases hq : numberByHash nd x with
+    | none => rfl
+    | some n => simp only [pr_txCount_r p (r n hq)] <;> (first | done | mrfl)
+  | l1Accepted =>
+    simp only [D10.blockTransactionCount, V10.blockTransactionCount, d10_l1_r p]
+    cases hq : V10.l1AcceptedBlockNumber nd with
+    | none => rfl
+    | some n => simp only [pr_txCount_r p (r n (by rw [l1A_10 nd]; exact hq))] <;> (first | done | mrfl)
+
+theorem d10_blockWithTxHashes_r {id : BlockId} (r : RetainedId db nd id) :
+    D10.blockWithTxHashes db id = .ans (V10.blockWithTxHashes nd id) := by
+  simp only [D10.blockWithTxHashes, V10.blockWithTxHashes, d10_blockHeaderByID_r p r]
+  by_cases hp : (id == BlockId.pre) = true
+  · simp [hp]
+  · simp only [hp, Bool.false_eq_true, if_false]
+    cases hh : V10.blockHeaderByID nd id with
+    | error e => rfl
+    | ok hd =>
+      obtain ⟨hE, hl⟩ := v10_retained_number p r (by rw [← v10_header_eq_block]; exact hh)
+      simp only [pr_txHashes_r p hE, d10_header_r p]
+      cases txHashesByNumber nd hd.number with
+      | none => rfl
+      | some hs => simp [pr_hasCommit_r p hE hl]
+
+theorem d10_blockWithTxs_r {id : BlockId} (r : RetainedId db nd id) :
+    D10.blockWithTxs db id = .ans (V10.blockWithTxs nd id) := by
+  simp only [D10.blockWithTxs, V10.blockWithTxs, d10_blockHeaderByID_r p r]
+  by_cases hp : (id == BlockId.pre) = true
+  · simp [hp]
+  · simp only [hp, Bool.false_eq_true, if_false]
+    cases hh : V10.blockHeaderByID nd id with
+    | error e => rfl
+    | ok hd =>
+      obtain ⟨hE, hl⟩ := v10_retained_number p r (by rw [← v10_header_eq_block]; exact hh)
+      simp only [pr_txs_r p hE, d10_header_r p]
+      cases txsByNumber nd hd.number with
+      | none => rfl
+      | some hs => simp [pr_hasCommit_r p hE hl]
+
+theorem d10_blockWithReceipts_r {id : BlockId} (r : RetainedId db nd id) :
+    D10.blockWithReceipts db id = .ans (V10.blockWithReceipts nd id) := by
+  simp only [D10.blockWithReceipts, V10.blockWithReceipts, d10_blockByID_r p r]
+  cases hh : V10.blockByID nd id with
+  | error e => rfl
+  | ok b =>
+    obtain ⟨hE, hl⟩ := v10_retained_number p r hh
+    simp only [d10_header_r p, d10_blockStatus_r p]
+    simp [pr_hasCommit_r p hE hl]
+
+theorem d10_byHash_r {x : Nat} (r : RetainedTx db nd x) :
+    D10.transactionByHash db x = V10.transactionByHash nd x ∧
+    D10.transactionReceiptByHash db x = V10.transactionReceiptByHash nd x ∧
+    D10.transactionStatusFromStore db x = V10.transactionStatusFromStore nd x := by
+  have hloc : db.txLoc x = numberAndIndexByTxHash nd x := by
+    rw [pr_txLoc p]
+    cases hq : numberAndIndexByTxHash nd x with
+    | none => rfl
+    | some q =>
+      obtain ⟨n, i⟩ := q
+      have := r n i hq
+      have hn : ¬ n < db.prunedBelow := by omega
+      simp [hn]
+  simp only [D10.transactionByHash, V10.transactionByHash, D10.transactionReceiptByHash, V10.transactionReceiptByHash,
+    D10.transactionStatusFromStore, V10.transactionStatusFromStore, Db.txByHash, txByHash, hloc, d10_blockStatus_r p]
+  cases hq : numberAndIndexByTxHash nd x with
+  | none => exact ⟨rfl, rfl, rfl⟩
+  | some q =>
+    obtain ⟨n, i⟩ := q
+    have hE := r n i hq
+    simp only [Option.bind_some, pr_txAt_r p hE, pr_txAndBlockHash_r p hE]
+    exact ⟨by mrfl, by mrfl, by mrfl⟩
+
+theorem d10_status_r {x : Nat} (r : RetainedTx db nd x) (env : Env) :
+    D10.transactionStatus env db x = V10.transactionStatus env nd x := by
+  simp only [D10.transactionStatus, V10.transactionStatus, (d10_byHash_r p r).2.2]
+  mrfl
+
+theorem d10_txByIdx_r {id : BlockId} (r : RetainedId db nd id) (i : Int) :
+    D10.transactionByBlockIDAndIndex db id i = V10.transactionByBlockIDAndIndex nd id i := by
+  by_cases hi : i < 0
+  · simp [D10.transactionByBlockIDAndIndex, V10.transactionByBlockIDAndIndex, hi]
+  cases id with
+  | pre => simp [D10.transactionByBlockIDAndIndex, V10.transactionByBlockIDAndIndex, hi]
+  | latest =>
+    simp only [D10.transactionByBlockIDAndIndex, V10.transactionByBlockIDAndIndex, hi, if_false, pr_headsHeader p]
+    cases hq : headBlock nd with
+    | none => rfl
+    | some b =>
+      obtain ⟨hE, _⟩ := v10_retained_number (id := .latest) (hd := b) p trivial (by simp [V10.blockByID, hq])
+      simp only [Option.map_some, pr_txAt_r p hE] <;> (first | done | mrfl)
+  | number n =>
+    simp only [D10.transactionByBlockIDAndIndex, V10.transactionByBlockIDAndIndex, hi, if_false,
+      pr_txAt_r p (show db.prunedBelow ≤ n from r)] <;> (first | done | mrfl)
+  | hash x =>
+    simp only [D10.transactionByBlockIDAndIndex, V10.transactionByBlockIDAndIndex, hi, if_false,
+      pr_numberByHash_r p (fun n hn => Nat.le_succ_of_le (r n hn))]
+    cases hq : numberByHash nd x with
+    | none => rfl
+    | some n => simp only [pr_txAt_r p (r n hq)] <;> (first | done | mrfl)
+  | l1Accepted =>
+    simp only [D10.transactionByBlockIDAndIndex, V10.transactionByBlockIDAndIndex, hi, if_false, d10_l1_r p]
+    cases hq : V10.l1AcceptedBlockNumber nd with
+    | none => rfl
+    | some n => simp only [pr_txAt_r p (r n (by rw [l1A_10 nd]; exact hq))] <;> (first | done | mrfl)
+
+theorem d10_stateUpdate_r {id : BlockId} (r : RetainedId db nd id) (f : List Nat) :
+    D10.stateUpdate db id f = V10.stateUpdate nd id f := by
+  cases id with
+  | pre => rfl
+  | latest =>
+    simp only [D10.stateUpdate, V10.stateUpdate, pr_height p]
+    cases hq : height nd with
+    | none => rfl
+    | some h => simp only [pr_update_r p (pr_height_retained p hq)] <;> (first | done | mrfl)
+  | number n => simp only [D10.stateUpdate, V10.stateUpdate, pr_update_r p (show db.prunedBelow ≤ n from r)] <;> (first | done | mrfl)
+  | hash x =>
+    simp only [D10.stateUpdate, V10.stateUpdate, Db.updateByHash, stateUpdateByHash, blockByHash,
+      pr_numberByHash_r p (fun n hn => Nat.le_succ_of_le (r n hn))]
+    cases hq : numberByHash nd x with
+    | none => rfl
+    | some n => simp only [pr_update_r p (r n hq), stateUpdateByNumber, Option.bind_some] <;> (first | done | mrfl)
+  | l1Accepted =>
+    simp only [D10.stateUpdate, V10.stateUpdate, d10_l1_r p]
+    cases hq : V10.l1AcceptedBlockNumber nd with
+    | none => rfl
+    | some n => simp only [pr_update_r p (r n (by rw [l1A_10 nd]; exact hq))] <;> (first | done | mrfl)
+
+theorem d10_stateByBlockID_r {id : BlockId} (r : RetainedStateId db nd id) (be : Backend) :
+    D10.stateByBlockID be db id = V10.stateByBlockID be nd id := by
+  cases id with
+  | pre => rfl
+  | latest => simp only [D10.stateByBlockID, V10.stateByBlockID, pr_headState p] <;> (first | done | mrfl)
+  | number n => simp only [D10.stateByBlockID, V10.stateByBlockID, pr_stateAtNumber_r p (show db.prunedBelow ≤ n + 1 from r)] <;> (first | done | mrfl)
+  | hash x => simp only [D10.stateByBlockID, V10.stateByBlockID, pr_stateAtHash_r p r] <;> (first | done | mrfl)
+  | l1Accepted =>
+    simp only [D10.stateByBlockID, V10.stateByBlockID, d10_l1_r p]
+    cases hq : V10.l1AcceptedBlockNumber nd with
+    | none => rfl
+    | some n => simp only [pr_stateAtNumber_r p (r n (by rw [l1A_10 nd]; exact hq))] <;> (first | done | mrfl)
+
+theorem d10_stateMethods_r {id : BlockId} (r : RetainedStateId db nd id) (be : Backend) (a c k : Nat) (lu : Bool)
+    (hlu : lu = false ∨ be = .new ∨ db.prunedBelow = 0) :
+    D10.nonce be db id a = V10.nonce be nd id a ∧ D10.classHashAt be db id a = V10.classHashAt be nd id a ∧
+    D10.classByHash be db id c = V10.classByHash be nd id c ∧ D10.classAt be db id a = V10.classAt be nd id a ∧
+    D10.storageAt be db id a k lu = V10.storageAt be nd id a k lu := by
+  have e := d10_stateByBlockID_r p r be
+  have hn : D10.nonce be db id a = V10.nonce be nd id a := by simp only [D10.nonce, V10.nonce, e]; mrfl
+  have hc : D10.classHashAt be db id a = V10.classHashAt be nd id a := by simp only [D10.classHashAt, V10.classHashAt, e]; mrfl
+  have hb : ∀ c, D10.classByHash be db id c = V10.classByHash be nd id c := by
+    intro c; simp only [D10.classByHash, V10.classByHash, e]; mrfl
+  refine ⟨hn, hc, hb c, ?_, ?_⟩
+  · simp only [D10.classAt, V10.classAt, hc]
+    congr 1
+    funext c
+    exact hb c
+  · have hl : lu = false ∨ ∀ bs, db.lastUpdate be bs a k = lastUpdateIn be bs a k := by
+      rcases hlu with h | h | h
+      · exact Or.inl h
+      · right; intro bs; subst h; rfl
+      · right; intro bs
+        cases be with
+        | legacy => simp [Db.lastUpdate, lastUpdateIn, lastLoggedIn, h, lastLoggedRevFrom_zero]
+        | new => rfl
+    simp only [D10.storageAt, V10.storageAt, D10.storageOf, e]
+    rcases hl with h | h
+    · subst h
+      simp only [Bool.false_eq_true, if_false]
+      mrfl
+    · simp only [h]
+      mrfl
+
+theorem v9_retained_number {id : BlockId} {hd : Block} (r : RetainedId db nd id) (hh : V9.blockByID nd id = .ok hd) :
+    db.prunedBelow ≤ hd.number ∧ hd.number < nd.chain.length := by
+  have key : ∀ n, nd.chain[n]? = some hd → db.prunedBelow ≤ n → db.prunedBelow ≤ hd.number ∧ hd.number < nd.chain.length := by
+    intro n hn hE
+    have e := p.wf n hd hn
+    have hl := number_lt_of_getElem? p.wf hn
+    omega
+  cases id with
+  | pre => simp [V9.blockByID] at hh
+  | latest =>
+    simp only [V9.blockByID, headBlock] at hh
+    cases hq : height nd with
+    | none => simp [hq] at hh
+    | some h =>
+      simp only [hq, Option.bind_some, blockByNumber] at hh
+      cases hb : nd.chain[h]? with
+      | none => simp [hb] at hh
+      | some c => simp [hb] at hh; subst hh; exact key h hb (pr_height_retained p hq)
+  | number n =>
+    simp only [V9.blockByID, blockByNumber] at hh
+    cases hb : nd.chain[n]? with
+    | none => simp [hb] at hh
+    | some c => simp [hb] at hh; subst hh; exact key n hb r
+  | hash x =>
+    simp only [V9.blockByID, blockByHash] at hh
+    cases hq : numberByHash nd x with
+    | none => simp [hq] at hh
+    | some n =>
+      simp only [hq, Option.bind_some, blockByNumber] at hh
+      cases hb : nd.chain[n]? with
+      | none => simp [hb] at hh
+      | some c => simp [hb] at hh; subst hh; exact key n hb (r n hq)
+  | l1Accepted =>
+    simp only [V9.blockByID] at hh
+    cases hq : V9.l1AcceptedBlockNumber nd with
+    | none => simp [hq] at hh
+    | some n =>
+      simp only [hq, blockByNumber] at hh
+      cases hb : nd.chain[n]? with
+      | none => simp [hb] at hh
+      | some c => simp [hb] at hh; subst hh; exact key n hb (r n (by rw [l1A_9 nd]; exact hq))
+
+theorem d9_blockTransactionCount_r {id : BlockId} (r : RetainedId db nd id) :
+    D9.blockTransactionCount db id = V9.blockTransactionCount nd id := by
+  cases id with
+  | pre => rfl
+  | latest =>
+    simp only [D9.blockTransactionCount, V9.blockTransactionCount, pr_height p]
+    cases hq : height nd with
+    | none => rfl
+    | some h => simp only [pr_txCount_r p (pr_height_retained p hq)] <;> (first | done | mrfl)
+  | number n => simp only [D9.blockTransactionCount, V9.blockTransactionCount, pr_txCount_r p (show db.prunedBelow ≤ n from r)] <;> (first | done | mrfl)
+  | hash x =>
+    simp only [D9.blockTransactionCount, V9.blockTransactionCount, pr_numberByHash_r p (fun n hn => Nat.le_succ_of_le (r n hn))]
+    cases hq : numberByHash nd x with
+    | none => rfl
+    | some n => simp only [pr_txCount_r p (r n hq)] <;> (first | done | mrfl)
+  | l1Accepted =>
+    simp only [D9.blockTransactionCount, V9.blockTransactionCount, d9_l1_r p]
+    cases hq : V9.l1AcceptedBlockNumber nd with
+    | none => rfl
+    | some n => simp only [pr_txCount_r p (r n (by rw [l1A_9 nd]; exact hq))] <;> (first | done | mrfl)
+
+theorem d9_blockWithTxHashes_r {id : BlockId} (r : RetainedId db nd id) :
+    D9.blockWithTxHashes db id = (V9.blockWithTxHashes nd id) := by
+  simp only [D9.blockWithTxHashes, V9.blockWithTxHashes, d9_blockHeaderByID_r p r]
+  by_cases hp : (id == BlockId.pre) = true
+  · simp [hp]
+  · simp only [hp, Bool.false_eq_true, if_false]
+    cases hh : V9.blockHeaderByID nd id with
+    | error e => rfl
+    | ok hd =>
+      obtain ⟨hE, hl⟩ := v9_retained_number p r (by rw [← v9_header_eq_block]; exact hh)
+      simp only [pr_txHashes_r p hE, d9_header_r p]
+      cases txHashesByNumber nd hd.number with
+      | none => rfl
+      | some hs => rfl
+
+theorem d9_blockWithTxs_r {id : BlockId} (r : RetainedId db nd id) :
+    D9.blockWithTxs db id = (V9.blockWithTxs nd id) := by
+  simp only [D9.blockWithTxs, V9.blockWithTxs, d9_blockHeaderByID_r p r]
+  by_cases hp : (id == BlockId.pre) = true
+  · simp [hp]
+  · simp only [hp, Bool.false_eq_true, if_false]
+    cases hh : V9.blockHeaderByID nd id with
+    | error e => rfl
+    | ok hd =>
+      obtain ⟨hE, hl⟩ := v9_retained_number p r (by rw [← v9_header_eq_block]; exact hh)
+      simp only [pr_txs_r p hE, d9_header_r p]
+      cases txsByNumber nd hd.number with
+      | none => rfl
+      | some hs => rfl
+
+theorem d9_blockWithReceipts_r {id : BlockId} (r : RetainedId db nd id) :
+    D9.blockWithReceipts db id = (V9.blockWithReceipts nd id) := by
+  simp only [D9.blockWithReceipts, V9.blockWithReceipts, d9_blockByID_r p r]
+  cases hh : V9.blockByID nd id with
+  | error e => rfl
+  | ok b =>
+    simp only [d9_header_r p, d9_blockStatus_r p]
+
+theorem d9_byHash_r {x : Nat} (r : RetainedTx db nd x) :
+    D9.transactionByHash db x = V9.transactionByHash nd x ∧
+    D9.transactionReceiptByHash db x = V9.transactionReceiptByHash nd x ∧
+    D9.transactionStatusFromStore db x = V9.transactionStatusFromStore nd x := by
+  have hloc : db.txLoc x = numberAndIndexByTxHash nd x := by
+    rw [pr_txLoc p]
+    cases hq : numberAndIndexByTxHash nd x with
+    | none => rfl
+    | some q =>
+      obtain ⟨n, i⟩ := q
+      have := r n i hq
+      have hn : ¬ n < db.prunedBelow := by omega
+      simp [hn]
+  simp only [D9.transactionByHash, V9.transactionByHash, D9.transactionReceiptByHash, V9.transactionReceiptByHash,
+    D9.transactionStatusFromStore, V9.transactionStatusFromStore, Db.txByHash, txByHash, hloc, d9_blockStatus_r p]
+  cases hq : numberAndIndexByTxHash nd x with
+  | none => exact ⟨rfl, rfl, rfl⟩
+  | some q =>
+    obtain ⟨n, i⟩ := q
+    have hE := r n i hq
+    simp only [Option.bind_some, pr_txAt_r p hE, pr_txAndBlockHash_r p hE]
+    exact ⟨by mrfl, by mrfl, by mrfl⟩
+
+theorem d9_status_r {x : Nat} (r : RetainedTx db nd x) (env : Env) :
+    D9.transactionStatus env db x = V9.transactionStatus env nd x := by
+  simp only [D9.transactionStatus, V9.transactionStatus, (d9_byHash_r p r).2.2]
+  mrfl
+
+theorem d9_txByIdx_r {id : BlockId} (r : RetainedId db nd id) (i : Int) :
+    D9.transactionByBlockIDAndIndex db id i = V9.transactionByBlockIDAndIndex nd id i := by
+  by_cases hi : i < 0
+  · simp [D9.transactionByBlockIDAndIndex, V9.transactionByBlockIDAndIndex, hi]
+  cases id with
+  | pre => simp [D9.transactionByBlockIDAndIndex, V9.transactionByBlockIDAndIndex, hi]
+  | latest =>
+    simp only [D9.transactionByBlockIDAndIndex, V9.transactionByBlockIDAndIndex, hi, if_false, pr_headsHeader p]
+    cases hq : headBlock nd with
+    | none => rfl
+    | some b =>
+      obtain ⟨hE, _⟩ := v9_retained_number (id := .latest) (hd := b) p trivial (by simp [V9.blockByID, hq])
+      simp only [Option.map_some, pr_txAt_r p hE] <;> (first | done | mrfl)
+  | number n =>
+    simp only [D9.transactionByBlockIDAndIndex, V9.transactionByBlockIDAndIndex, hi, if_false,
+      pr_txAt_r p (show db.prunedBelow ≤ n from r)] <;> (first | done | mrfl)
+  | hash x =>
+    simp only [D9.transactionByBlockIDAndIndex, V9.transactionByBlockIDAndIndex, hi, if_false,
+      pr_numberByHash_r p (fun n hn => Nat.le_succ_of_le (r n hn))]
+    cases hq : numberByHash nd x with
+    | none => rfl
+    | some n => simp only [pr_txAt_r p (r n hq)] <;> (first | done | mrfl)
+  | l1Accepted =>
+    simp only [D9.transactionByBlockIDAndIndex, V9.transactionByBlockIDAndIndex, hi, if_false, d9_l1_r p]
+    cases hq : V9.l1AcceptedBlockNumber nd with
+    | none => rfl
+    | some n => simp only [pr_txAt_r p (r n (by rw [l1A_9 nd]; exact hq))] <;> (first | done | mrfl)
+
+theorem d9_stateUpdate_r {id : BlockId} (r : RetainedId db nd id) :
+    D9.stateUpdate db id = V9.stateUpdate nd id := by
+  cases id with
+  | pre => rfl
+  | latest =>
+    simp only [D9.stateUpdate, V9.stateUpdate, pr_height p]
+    cases hq : height nd with
+    | none => rfl
+    | some h => simp only [pr_update_r p (pr_height_retained p hq)] <;> (first | done | mrfl)
+  | number n => simp only [D9.stateUpdate, V9.stateUpdate, pr_update_r p (show db.prunedBelow ≤ n from r)] <;> (first | done | mrfl)
+  | hash x =>
+    simp only [D9.stateUpdate, V9.stateUpdate, Db.updateByHash, stateUpdateByHash, blockByHash,
+      pr_numberByHash_r p (fun n hn => Nat.le_succ_of_le (r n hn))]
+    cases hq : numberByHash nd x with
+    | none => rfl
+    | some n => simp only [pr_update_r p (r n hq), stateUpdateByNumber, Option.bind_some] <;> (first | done | mrfl)
+  | l1Accepted =>
+    simp only [D9.stateUpdate, V9.stateUpdate, d9_l1_r p]
+    cases hq : V9.l1AcceptedBlockNumber nd with
+    | none => rfl
+    | some n => simp only [pr_update_r p (r n (by rw [l1A_9 nd]; exact hq))] <;> (first | done | mrfl)
+
+theorem d9_stateByBlockID_r {id : BlockId} (r : RetainedStateId db nd id) (be : Backend) :
+    D9.stateByBlockID be db id = V9.stateByBlockID be nd id := by
+  cases id with
+  | pre => rfl
+  | latest => simp only [D9.stateByBlockID, V9.stateByBlockID, pr_headState p] <;> (first | done | mrfl)
+  | number n => simp only [D9.stateByBlockID, V9.stateByBlockID, pr_stateAtNumber_r p (show db.prunedBelow ≤ n + 1 from r)] <;> (first | done | mrfl)
+  | hash x => simp only [D9.stateByBlockID, V9.stateByBlockID, pr_stateAtHash_r p r] <;> (first | done | mrfl)
+  | l1Accepted =>
+    simp only [D9.stateByBlockID, V9.stateByBlockID, d9_l1_r p]
+    cases hq : V9.l1AcceptedBlockNumber nd with
+    | none => rfl
+    | some n => simp only [pr_stateAtNumber_r p (r n (by rw [l1A_9 nd]; exact hq))] <;> (first | done | mrfl)
+
+theorem d9_stateMethods_r {id : BlockId} (r : RetainedStateId db nd id) (be : Backend) (a c k : Nat) :
+    D9.nonce be db id a = V9.nonce be nd id a ∧ D9.classHashAt be db id a = V9.classHashAt be nd id a ∧
+    D9.classByHash be db id c = V9.classByHash be nd id c ∧ D9.classAt be db id a = V9.classAt be nd id a ∧
+    D9.storageAt be db id a k = V9.storageAt be nd id a k := by
+  have e := d9_stateByBlockID_r p r be
+  have hn : D9.nonce be db id a = V9.nonce be nd id a := by simp only [D9.nonce, V9.nonce, e]; mrfl
+  have hc : D9.classHashAt be db id a = V9.classHashAt be nd id a := by simp only [D9.classHashAt, V9.classHashAt, e]; mrfl
+  have hb : ∀ c, D9.classByHash be db id c = V9.classByHash be nd id c := by
+    intro c; simp only [D9.classByHash, V9.classByHash, e]; mrfl
+  refine ⟨hn, hc, hb c, ?_, ?_⟩
+  · simp only [D9.classAt, V9.classAt, hc]
+    congr 1
+    funext c
+    exact hb c
+  · simp only [D9.storageAt, V9.storageAt, e]
+    mrfl
+
+/-! rpc/v8 on retained identifiers -/
+
+theorem pr_header_lag {m : Nat} (h : db.prunedBelow ≤ m + blockHashLag) : db.header m = blockByNumber nd m := by
+  simp [Db.header, Db.headerKept, h, blockByNumber, p.s.chain] <;> (first | done | mrfl)
+
+theorem headBlock_number {h : Block} (hq : headBlock nd = some h) : h.number + 1 = nd.chain.length := by
+  simp only [headBlock, height] at hq
+  by_cases he : nd.chain.isEmpty
+  · simp [he] at hq
+  · have hl := length_pos_of_not_isEmpty he
+    simp only [he, Bool.false_eq_true, if_false, Option.bind_some, blockByNumber] at hq
+    have := p.wf _ h hq
+    omega
+
+theorem d8_pending_r : D8.pending db = V8.pending nd := by
+  simp only [D8.pending, V8.pending, pr_headsHeader p]
+  cases hq : headBlock nd with
+  | none => rfl
+  | some h =>
+    have hn := headBlock_number p hq
+    by_cases hl : h.number + 1 < blockHashLag
+    · simp [hl]
+    · have hk : db.prunedBelow ≤ (h.number + 1 - blockHashLag) + blockHashLag := by
+        rcases p.s.head with h0 | h1 <;> omega
+      simp only [hl, if_false, pr_header_lag p hk]
+      mrfl
+
+theorem d8_blockStatus_r (n : Nat) : D8.blockStatus db n = V8.blockStatus nd n := by
+  simp only [D8.blockStatus, V8.blockStatus, statusL1, p.s.l1, p.s.l1z] <;> (first | done | mrfl)
+
+theorem d8_header_r (b : Block) : D8.header db b = V8.header nd b := by
+  simp only [D8.header, V8.header, V8.blockStatus, statusL1, p.s.l1, p.s.l1z] <;> (first | done | mrfl)
+
+theorem d8_blockHeaderByID_r {id : BlockId} (r : RetainedId db nd id) : D8.blockHeaderByID db id = V8.blockHeaderByID nd id := by
+  cases id with
+  | pre => simp only [D8.blockHeaderByID, V8.blockHeaderByID, d8_pending_r p] <;> (first | done | mrfl)
+  | latest => simp only [D8.blockHeaderByID, V8.blockHeaderByID, pr_headsHeader p] <;> (first | done | mrfl)
+  | number n => simp only [D8.blockHeaderByID, V8.blockHeaderByID, pr_header_r p (show db.prunedBelow ≤ n from r)] <;> (first | done | mrfl)
+  | hash x =>
+    simp only [D8.blockHeaderByID, V8.blockHeaderByID, Db.headerByHash, blockByHash,
+      pr_numberByHash_r p (fun n hn => Nat.le_succ_of_le (r n hn))]
+    cases hq : numberByHash nd x with
+    | none => rfl
+    | some n => simp [pr_header_r p (r n hq)] <;> (first | done | mrfl)
+  | l1Accepted => rfl
+
+theorem d8_blockByID_r {id : BlockId} (r : RetainedId db nd id) : D8.blockByID db id = V8.blockByID nd id := by
+  cases id with
+  | pre => simp only [D8.blockByID, V8.blockByID, d8_pending_r p] <;> (first | done | mrfl)
+  | latest => simp only [D8.blockByID, V8.blockByID, pr_head p] <;> (first | done | mrfl)
+  | number n => simp only [D8.blockByID, V8.blockByID, pr_blockByNumber_r p (show db.prunedBelow ≤ n from r)] <;> (first | done | mrfl)
+  | hash x =>
+    simp only [D8.blockByID, V8.blockByID, Db.blockByHash, blockByHash,
+      pr_numberByHash_r p (fun n hn => Nat.le_succ_of_le (r n hn))]
+    cases hq : numberByHash nd x with
+    | none => rfl
+    | some n => simp [pr_blockByNumber_r p (r n hq)] <;> (first | done | mrfl)
+  | l1Accepted => rfl
+
+/-- A stored header a retained identifier leads to is that of a retained block. -/
+theorem v8_retained_number {id : BlockId} {hd : Block} (r : RetainedId db nd id) (hh : V8.blockHeaderByID nd id = .ok (.stored hd)) :
+    db.prunedBelow ≤ hd.number ∧ hd.number < nd.chain.length := by
+  have key : ∀ n, nd.chain[n]? = some hd → db.prunedBelow ≤ n → db.prunedBelow ≤ hd.number ∧ hd.number < nd.chain.length := by
+    intro n hn hE
+    have e := p.wf n hd hn
+    have hl := number_lt_of_getElem? p.wf hn
+    omega
+  cases id with
+  | pre =>
+    simp only [V8.blockHeaderByID] at hh
+    cases hp : V8.pending nd with
+    | none => simp [hp] at hh
+    | some q =>
+      simp only [hp] at hh
+      simp only [V8.pending] at hp
+      cases hq : headBlock nd with
+      | none => simp [hq] at hp
+      | some c =>
+        simp only [hq] at hp
+        split at hp
+        · cases hp; cases hh
+        · split at hp
+          · cases hp; cases hh
+          · cases hp
+  | latest =>
+    simp only [V8.blockHeaderByID, headBlock] at hh
+    cases hq : height nd with
+    | none => simp [hq] at hh
+    | some h =>
+      simp only [hq, Option.bind_some, blockByNumber] at hh
+      cases hb : nd.chain[h]? with
+      | none => simp [hb] at hh
+      | some c => simp [hb] at hh; subst hh; exact key h hb (pr_height_retained p hq)
+  | number n =>
+    simp only [V8.blockHeaderByID, blockByNumber] at hh
+    cases hb : nd.chain[n]? with
+    | none => simp [hb] at hh
+    | some c => simp [hb] at hh; subst hh; exact key n hb r
+  | hash x =>
+    simp only [V8.blockHeaderByID, blockByHash] at hh
+    cases hq : numberByHash nd x with
+    | none => simp [hq] at hh
+    | some n =>
+      simp only [hq, Option.bind_some, blockByNumber] at hh
+      cases hb : nd.chain[n]? with
+      | none => simp [hb] at hh
+      | some c => simp [hb] at hh; subst hh; exact key n hb (r n hq)
+  | l1Accepted => simp [V8.blockHeaderByID] at hh
+
+theorem d8_blockTxns_number_r {n : Nat} (h : db.prunedBelow ≤ n) :
+    D8.blockTxnsByNumber db (.number n) = V8.blockTxnsByNumber nd (.number n) := by
+  simp only [D8.blockTxnsByNumber, V8.blockTxnsByNumber, pr_txs_r p h] <;> (first | done | mrfl)
+
+theorem d8_blockTxns_pre_r : D8.blockTxnsByNumber db .pre = V8.blockTxnsByNumber nd .pre := by
+  simp only [D8.blockTxnsByNumber, V8.blockTxnsByNumber, d8_pending_r p] <;> (first | done | mrfl)
+
+theorem d8_blockMethods_r {id : BlockId} (r : RetainedId db nd id) :
+    D8.blockWithTxHashes db id = V8.blockWithTxHashes nd id ∧ D8.blockWithTxs db id = V8.blockWithTxs nd id ∧
+    D8.blockWithReceipts db id = V8.blockWithReceipts nd id ∧
+    D8.blockTransactionCount db id = V8.blockTransactionCount nd id := by
+  have hh := d8_blockHeaderByID_r p r
+  have htx : ∀ hd, V8.blockHeaderByID nd id = .ok hd →
+      D8.blockTxnsByNumber db (if id == .pre then id else BlockId.number hd.number) =
+        V8.blockTxnsByNumber nd (if id == .pre then id else BlockId.number hd.number) := by
+    intro hd hq
+    by_cases hp : (id == BlockId.pre) = true
+    · have : id = .pre := by simpa using hp
+      subst this
+      simp only [beq_self_eq_true, if_true]
+      exact d8_blockTxns_pre_r p
+    · simp only [hp, Bool.false_eq_true, if_false]
+      cases hd with
+      | stored b => exact d8_blockTxns_number_r p (v8_retained_number p r hq).1
+      | pending q m =>
+        -- a pending header only comes from the `pending` tag
+        exfalso
+        cases id with
+        | pre => simp at hp
+        | latest => simp only [V8.blockHeaderByID] at hq; split at hq <;> cases hq
+        | number n => simp only [V8.blockHeaderByID] at hq; split at hq <;> cases hq
+        | hash x => simp only [V8.blockHeaderByID] at hq; split at hq <;> cases hq
+        | l1Accepted => simp [V8.blockHeaderByID] at hq
+  refine ⟨?_, ?_, ?_, ?_⟩
+  · simp only [D8.blockWithTxHashes, V8.blockWithTxHashes, hh]
+    cases hq : V8.blockHeaderByID nd id with
+    | error e => rfl
+    | ok hd => simp only [htx hd hq, d8_header_r p]; mrfl
+  · simp only [D8.blockWithTxs, V8.blockWithTxs, hh]
+    cases hq : V8.blockHeaderByID nd id with
+    | error e => rfl
+    | ok hd => simp only [htx hd hq, d8_header_r p]; mrfl
+  · simp only [D8.blockWithReceipts, V8.blockWithReceipts, d8_blockByID_r p r, d8_header_r p, d8_blockStatus_r p]
+    mrfl
+  · simp only [D8.blockTransactionCount, V8.blockTransactionCount, hh]
+    mrfl
+
+theorem d8_byHash_r {x : Nat} (r : RetainedTx db nd x) :
+    D8.transactionByHash db x = V8.transactionByHash nd x ∧
+    D8.transactionReceiptByHash db x = V8.transactionReceiptByHash nd x := by
+  have hloc : db.txLoc x = numberAndIndexByTxHash nd x := by
+    rw [pr_txLoc p]
+    cases hq : numberAndIndexByTxHash nd x with
+    | none => rfl
+    | some q =>
+      obtain ⟨n, i⟩ := q
+      have := r n i hq
+      have hn : ¬ n < db.prunedBelow := by omega
+      simp [hn]
+  simp only [D8.transactionByHash, V8.transactionByHash, D8.transactionReceiptByHash, V8.transactionReceiptByHash,
+    Db.txByHash, txByHash, hloc, d8_blockStatus_r p]
+  cases hq : numberAndIndexByTxHash nd x with
+  | none => exact ⟨rfl, rfl⟩
+  | some q =>
+    obtain ⟨n, i⟩ := q
+    have hE := r n i hq
+    simp only [Option.bind_some, pr_txAt_r p hE, pr_txAndBlockHash_r p hE]
+    exact ⟨by mrfl, by mrfl⟩
+
+theorem d8_status_r {x : Nat} (r : RetainedTx db nd x) (env : Env) :
+    D8.transactionStatus env db x = V8.transactionStatus env nd x := by
+  simp only [D8.transactionStatus, V8.transactionStatus, (d8_byHash_r p r).2]
+  mrfl
+
+theorem d8_txByIdx_r {id : BlockId} (r : RetainedId db nd id) (i : Int) :
+    D8.transactionByBlockIDAndIndex db id i = V8.transactionByBlockIDAndIndex nd id i := by
+  by_cases hi : i < 0
+  · simp [D8.transactionByBlockIDAndIndex, V8.transactionByBlockIDAndIndex, hi]
+  cases id with
+  | pre => simp only [D8.transactionByBlockIDAndIndex, V8.transactionByBlockIDAndIndex, hi, if_false, d8_pending_r p] <;> (first | done | mrfl)
+  | l1Accepted => simp [D8.transactionByBlockIDAndIndex, V8.transactionByBlockIDAndIndex, hi] <;> (first | done | mrfl)
+  | latest =>
+    simp only [D8.transactionByBlockIDAndIndex, V8.transactionByBlockIDAndIndex, hi, if_false, pr_headsHeader p]
+    cases hq : headBlock nd with
+    | none => rfl
+    | some b =>
+      have hn := headBlock_number p hq
+      have hE : db.prunedBelow ≤ b.number := by rcases p.s.head with h0 | h1 <;> omega
+      simp only [Option.map_some, pr_txAt_r p hE] <;> (first | done | mrfl)
+  | number n =>
+    simp only [D8.transactionByBlockIDAndIndex, V8.transactionByBlockIDAndIndex, hi, if_false,
+      pr_txAt_r p (show db.prunedBelow ≤ n from r)]
+  | hash x =>
+    simp only [D8.transactionByBlockIDAndIndex, V8.transactionByBlockIDAndIndex, hi, if_false,
+      pr_numberByHash_r p (fun n hn => Nat.le_succ_of_le (r n hn))]
+    cases hq : numberByHash nd x with
+    | none => rfl
+    | some n => simp only [pr_txAt_r p (r n hq)] <;> (first | done | mrfl)
+
+theorem d8_stateUpdate_r {id : BlockId} (r : RetainedId db nd id) :
+    D8.stateUpdate db id = V8.stateUpdate nd id := by
+  cases id with
+  | pre => simp only [D8.stateUpdate, V8.stateUpdate, d8_pending_r p] <;> (first | done | mrfl)
+  | l1Accepted => rfl
+  | latest =>
+    simp only [D8.stateUpdate, V8.stateUpdate, pr_height p]
+    cases hq : height nd with
+    | none => rfl
+    | some h => simp only [pr_update_r p (pr_height_retained p hq)] <;> (first | done | mrfl)
+  | number n => simp only [D8.stateUpdate, V8.stateUpdate, pr_update_r p (show db.prunedBelow ≤ n from r)] <;> (first | done | mrfl)
+  | hash x =>
+    simp only [D8.stateUpdate, V8.stateUpdate, Db.updateByHash, stateUpdateByHash, blockByHash,
+      pr_numberByHash_r p (fun n hn => Nat.le_succ_of_le (r n hn))]
+    cases hq : numberByHash nd x with
+    | none => rfl
+    | some n => simp only [pr_update_r p (r n hq), stateUpdateByNumber, Option.bind_some] <;> (first | done | mrfl)
+
+theorem d8_stateByBlockID_r {id : BlockId} (r : RetainedStateId db nd id) (be : Backend) :
+    D8.stateByBlockID be db id = V8.stateByBlockID be nd id := by
+  cases id with
+  | pre => simp only [D8.stateByBlockID, V8.stateByBlockID, pr_headState p] <;> (first | done | mrfl)
+  | latest => simp only [D8.stateByBlockID, V8.stateByBlockID, pr_headState p] <;> (first | done | mrfl)
+  | number n => simp only [D8.stateByBlockID, V8.stateByBlockID, pr_stateAtNumber_r p (show db.prunedBelow ≤ n + 1 from r)] <;> (first | done | mrfl)
+  | hash x => simp only [D8.stateByBlockID, V8.stateByBlockID, pr_stateAtHash_r p r] <;> (first | done | mrfl)
+  | l1Accepted => rfl
+
+theorem d8_stateMethods_r {id : BlockId} (r : RetainedStateId db nd id) (be : Backend) (a c k : Nat) :
+    D8.nonce be db id a = V8.nonce be nd id a ∧ D8.classHashAt be db id a = V8.classHashAt be nd id a ∧
+    D8.classByHash be db id c = V8.classByHash be nd id c ∧ D8.classAt be db id a = V8.classAt be nd id a ∧
+    D8.storageAt be db id a k = V8.storageAt be nd id a k := by
+  have e := d8_stateByBlockID_r p r be
+  have hn : D8.nonce be db id a = V8.nonce be nd id a := by simp only [D8.nonce, V8.nonce, e]; mrfl
+  have hc : D8.classHashAt be db id a = V8.classHashAt be nd id a := by simp only [D8.classHashAt, V8.classHashAt, e]; mrfl
+  have hb : ∀ c, D8.classByHash be db id c = V8.classByHash be nd id c := by
+    intro c; simp only [D8.classByHash, V8.classByHash, e]; mrfl
+  refine ⟨hn, hc, hb c, ?_, ?_⟩
+  · simp only [D8.classAt, V8.classAt, hc]
+    congr 1
+    funext c
+    exact hb c
+  · simp only [D8.storageAt, V8.storageAt, e]
+    mrfl
+
+end pruned2
+
 end Juno.C08
